@@ -1,7 +1,7 @@
 (** C18 — the theorems cited by Properties_C18.v, with concrete examples (non-vacuity). *)
 From Coq Require Import ZArith NArith List Bool Lia ZifyBool.
-From Texel Require Import Chess.Types gen.PolyglotRandoms Book.Polyglot Book.BuiltIn
-  Book.PolyglotProofs Book.SearchProofs Book.RangeProofs.
+From Texel Require Import Chess.Types gen.PolyglotRandoms Book.Polyglot Book.BuiltIn Book.BookSpec
+  Book.PolyglotProofs Book.SearchProofs Book.RangeProofs Book.DecodeProofs.
 Import ListNotations.
 Local Open Scope Z_scope.
 
@@ -145,6 +145,20 @@ Theorem builtin_reachable : forall bm zob wf legal m c,
               builtinBookMove bm zob wf legal rnd = OutMove m.
 Proof. intros. unfold builtinBookMove. eapply getBookMove_reachable; eauto. Qed.
 
+(** * move decoding = the polyglot format's definition, for every candidate of every probe *)
+Theorem move_decode_spec : forall pos mv, (mv < 65536)%N -> getMove pos mv = specDecode pos mv.
+Proof. exact getMove_spec. Qed.
+
+Theorem candidates_decode_spec : forall f key pos pr, sortedFile f -> getBookEntriesPG f key pos = Some pr ->
+  pr_cands pr = map (fun e => (specDecode pos (entMove e), Z.of_N (entWeight e)))
+                    (filter (fun e => (entHash e =? key)%N) (fileEntries f)).
+Proof.
+  intros f key pos pr Hs Hp. rewrite (probe_sorted_exact f key pos pr Hs Hp).
+  apply map_ext_in. intros e He. apply filter_In in He. destruct He as [He _].
+  unfold fileEntries in He. apply in_map_iff in He. destruct He as [i [<- _]].
+  unfold decodeCand. rewrite getMove_spec; [reflexivity|]. apply entMove_range.
+Qed.
+
 (** * hash key table accesses *)
 Theorem hash_indices_in_table : forall pos,
   Forall (fun i => (N.to_nat i < length hashRandoms)%nat) (hashIndices pos).
@@ -188,6 +202,29 @@ Definition startPos : position := mkSimplePos startSquares true 15%N (-1).
 
 (** the regenerated table is the standard polyglot table: key of the initial position *)
 Example ex_start_key : getHashKey startPos = 0x463b96181691fc9c%N.
+Proof. vm_compute. reflexivity. Qed.
+
+(** the whole table: xor of all 781 constants and position-weighted sum modulo 2^64 (values of the
+    published Random64 table; any changed, swapped, missing or extra constant alters one of them) *)
+Example ex_table_checksum :
+  length hashRandoms = 781%nat /\
+  fold_left N.lxor hashRandoms 0%N = 0xeaa4dc0dd06542b6%N /\
+  (fst (fold_left (fun a x => ((fst a + x * snd a) mod two64, snd a + 1))%N hashRandoms (0, 1)%N)) = 0x9ed769c526b32c64%N.
+Proof. vm_compute. auto. Qed.
+
+(** en-passant term: after 1.e4 d5 2.e5 f5 (published polyglot test vector) *)
+Definition epSquares : list piece :=
+  [3;5;4;2;1;4;5;3; 6;6;6;6;0;6;6;6; 0;0;0;0;0;0;0;0; 0;0;0;0;0;0;0;0;
+   0;0;0;12;6;12;0;0; 0;0;0;0;0;0;0;0; 12;12;12;0;12;0;12;12; 9;11;10;8;7;10;11;9]%N.
+Example ex_ep_key : getHashKey (mkSimplePos epSquares true 15%N 45) = 0x22a48b5a8e47ff78%N.
+Proof. vm_compute. reflexivity. Qed.
+
+(** castle flags and black to move: published vector after 1.e4 d5 2.e5 f5 3.Ke2 (white castling
+    rights lost, no en-passant square) *)
+Definition ke2Squares : list piece :=
+  [3;5;4;2;0;4;5;3; 6;6;6;6;1;6;6;6; 0;0;0;0;0;0;0;0; 0;0;0;0;0;0;0;0;
+   0;0;0;12;6;12;0;0; 0;0;0;0;0;0;0;0; 12;12;12;0;12;0;12;12; 9;11;10;8;7;10;11;9]%N.
+Example ex_ke2_key : getHashKey (mkSimplePos ke2Squares false 12%N (-1)) = 0x652a607ca3f242c1%N.
 Proof. vm_compute. reflexivity. Qed.
 
 Definition mv (f t : N) : move := mkMove f t 0%N.
